@@ -40,7 +40,8 @@ def strategy(tier):
     chunks = st.tuples(c12.strategy(tier), st.lists(st.integers(1, 24), min_size=1, max_size=3)).map(
         lambda t: {"k": "chunks", **t[0], "cuts": t[1]})
     errors = st.fixed_dictionaries({"k": st.just("errors"), "pair": st.integers(0, len(I.PAIRS) - 1),
-                                    "what": st.sampled_from(["undef", "undef-allowed", "redef", "redef-twice"])})
+                                    "what": st.sampled_from(["undef", "undef-allowed", "redef", "redef-twice", "redef-twice"]),
+                                    "temp": st.booleans(), "suffix": st.booleans(), "two_calls": st.booleans()})
     return st.one_of(multi, multi, chunks, chunks, errors)
 
 
@@ -202,17 +203,30 @@ def _errors(spec):
         if any(s.name == "nosuch" for s in m.symbols):
             out.fail("C13.errors", "assembler-modified-the-module", "")
         return out
-    text = f"existing:\n{nop}\n" if what == "redef" else f"newname:\n{nop}\nnewname:\n{nop}\n"
-    a = Assembler(m)
+    # a name defined twice: global or temporary label, with or without the
+    # caller's suffix, both definitions in one text or in two assemble() calls
+    temp = bool(spec.get("temp"))
+    suffix = "_9" if spec.get("suffix") else None
+    two_calls = bool(spec.get("two_calls"))
+    name = (I.temp_prefix(isa, fmt) + "again") if temp else "newname"
+    out.classes += [f"temp={temp}", f"suffix={bool(suffix)}", f"two_calls={two_calls}"]
+    if what == "redef":
+        texts = [f"existing:\n{nop}\n"]
+    elif two_calls:
+        texts = [f"{name}:\n{nop}\n", f"{nop}\n{name}:\n{nop}\n"]
+    else:
+        texts = [f"{name}:\n{nop}\n{name}:\n{nop}\n"]
+    a = Assembler(m, temp_symbol_suffix=suffix) if suffix else Assembler(m)
     try:
-        a.assemble(text)
-        a.finalize()
-        out.fail("C13.errors", "redefinition-accepted", text)
+        for t in texts:
+            a.assemble(t)
+        res = a.finalize()
+        out.fail("C13.errors", "redefinition-accepted", repr(texts) + f" -> symbols {sorted(s_.name for s_ in res.symbols)}", what)
     except MultipleDefinitionsError:
         pass
     except Exception as e:
         # LLVM itself diagnoses a label defined twice in one text
-        if what == "redef-twice" and type(e).__name__ in ("AsmSyntaxError", "MultipleDefinitionsError"):
+        if what == "redef-twice" and not two_calls and type(e).__name__ == "AsmSyntaxError":
             return out
         out.fail("C13.errors", "wrong-exception:" + exc_kind(e), repr(e)[:200], what)
     return out
